@@ -86,7 +86,8 @@ def run(ctx):
         jobs.append({"flavour": c["fl"], "impl": c["impl"], "eta": rwlib.nd(c["eta"]), "cue_vectors": c["cv"],
                      "outcome_vectors": c["ov"], "pol": c["pol"], "parts": parts, "n_jobs": c["n_jobs"],
                      "n_outcomes_per_job": c["n_outcomes_per_job"], "per": c["per"],
-                     "cue_vectors2": c.get("cv2"), "outcome_vectors2": c.get("ov2")})
+                     "cue_vectors2": c.get("cv2"), "outcome_vectors2": c.get("ov2"),
+                     "earlier_permuted": len(jobs) % 5 == 2})
     impl = run_jobs(sc, "wh_worker", jobs)
     rep.lap("wh_runs")
     mtabs, encs, mouts = whlib.model_tables(cases)
